@@ -23,9 +23,9 @@ def main(argv):
                 continue
             seen.add(f['bucket'])
             try:
-                f['case'] = mod.minimise(f['case'], f['bucket'])
+                f['case'] = core.deep_call(mod.minimise, f['case'], f['bucket'])
                 f['minimised'] = True
-                for b, d in mod.check_case(f['case']):
+                for b, d in core.deep_call(mod.check_case, f['case']):
                     if b == f['bucket']:
                         f['detail'] = str(d)[:4000]
             except Exception:
